@@ -277,6 +277,9 @@ func MethodTable() []NameAtom {
 	for _, m := range []string{"CONNECTS", "CONNEC", "TRAC", "TRACER", "XTRACK", "TRACKS", "TRACE-", "-TRACE", "C", "HEAD", "POST", "OPTIONS", "options", "PROPFIND", "M-SEARCH", "get", "Post"} {
 		out = append(out, NameAtom{Value: m})
 	}
+	for _, m := range []string{"po\u017ft", "opt\u0131ons", "option\u017f", "\u212a", "connec\u0074\u0307", "tra\u212ae"} {
+		out = append(out, NameAtom{Value: m, Reason: "invalid"})
+	}
 	return append(out, byteNames("A", "Z")...)
 }
 
@@ -298,6 +301,9 @@ func RequestHeaderTable() []NameAtom {
 	for _, n := range []string{"proxy", "prox-y", "xproxy-a", "sec", "secx-a", "xsec-a", "cookie3", "cooki", "dn", "dnt2", "hosts", "hos", "vias", "vi", "t", "tee", "dates", "expects", "origins", "referrer", "trailers", "upgrades", "accept", "accept-language", "content-language",
 		"access-control-allow", "access-control-allow-origins", "access-control-request", "x-access-control-allow-origin", "if-match", "range", "x-http-method-override-2"} {
 		out = append(out, NameAtom{Value: n}, NameAtom{Value: strings.ToUpper(n)})
+	}
+	for _, n := range []string{"x-\u017f", "author\u0131zation", "coo\u212aie", "\u017fec-x", "ho\u017ft"} {
+		out = append(out, NameAtom{Value: n, Reason: "invalid"})
 	}
 	return append(out, byteNames("x-", "-y")...)
 }
@@ -323,6 +329,9 @@ func ResponseHeaderTable() []NameAtom {
 	}
 	for _, n := range []string{"set-cookie3", "set-cooki", "xset-cookie", "cookie", "origins", "x-origin", "access-control-request", "etag", "link", "location", "vary", "www-authenticate", "x-request-id"} {
 		out = append(out, NameAtom{Value: n}, NameAtom{Value: strings.ToUpper(n)})
+	}
+	for _, n := range []string{"\u017fet-cookie", "x-\u212a", "or\u0131gin"} {
+		out = append(out, NameAtom{Value: n, Reason: "invalid"})
 	}
 	return append(out, byteNames("x-", "-y")...)
 }
